@@ -4,6 +4,7 @@ import copy, itertools, math, random, re
 import wire as W, ops as O, oracle as R, gen as G
 import model as M
 from framework import Run, batch_tie
+import framework as F_
 from props_a import cmp_pass, cmp_val, TOL_F, TOL_OP, wire_wf, is_bsr_stmt
 
 # ----------------------------------------------------------------------------------------- helpers
@@ -883,7 +884,7 @@ def check_C20(run: Run):
         if r["err"] is not None or W.diff(exp, r["c"]["stmts"], 0.0):
             run.violation("mapping a circuit with user gates did not relabel both descriptions", {"c": before, "p": p})
         mm = O.parse_pass(M.run_batch([O.req_map(p, before)])[0])
-        if cmp_pass({"band": False}, {"err": r["err"], "c": r["c"]}, mm): run.mismatch("map of a user-gate circuit differs from the model", {"c": before, "p": p})
+        F_.record_tie(run, "map of a user-gate circuit differs from the model", cmp_pass({"band": False}, {"err": r["err"], "c": r["c"]}, mm), {"c": before, "p": p})
         # merge / CNOT-decompose treat user gates through their operation and keep untouched ones intact
         circ2 = W.os_circuit(before, lookup)
         try:
@@ -911,7 +912,7 @@ def check_C20(run: Run):
             if not ok_: run.violation(f"after map, {s['nm']['name']}{s['nm']['args']} does not denote the operation it performs ({why})", {"c": before, "p": p}); break
         mm = O.parse_pass(M.run_batch([O.req_merge(before)])[0])
         d = cmp_pass({"band": False}, {"err": None, "c": after}, mm)
-        if d: run.mismatch("merge of a user-gate circuit differs from the model: " + d, {"c": before})
+        F_.record_tie(run, "merge of a user-gate circuit differs from the model", d, {"c": before})
         # replace keyed on the user gate
         swaps = [s for s in before["stmts"] if s["k"] == "gate" and s["nm"]["name"] == "swap"]
         if swaps:
@@ -1044,7 +1045,10 @@ def check_C05(run: Run):
             if req is not None:
                 m = O.parse_pass(M.run_batch([req])[0])
                 d = cmp_pass({"band": False}, {"err": None, "c": cur}, m)
-                if d: run.mismatch(f"step {i} {p}: {d}", {"c": c0, "seq": seq}, cur, m)
+                if d == "ambiguous": run.ambiguous += 1
+                elif d and d.startswith("soft:"):      # same operation, another representation: counted by the soft rule of the framework
+                    run.soft.append({"what": f"step {i} {p}: {d[5:]}", "case": {"c": c0, "seq": seq}, "impl": cur, "model": m})
+                elif d: run.mismatch(f"step {i} {p}: {d}", {"c": c0, "seq": seq}, cur, m)
             if not wire_wf(cur): run.violation(f"circuit not well-formed after {seq[:i + 1]}", {"c": c0, "seq": seq}); failed = True; break
             for s in cur["stmts"]:
                 ok, why = coherent(s)
